@@ -98,7 +98,7 @@ def run_once(inst, preempts):
 
 
 def _inst(tier):
-    return [{"op": o, "prog": p, "P": 1 if tier == "quick" else 2} for o in OPS for p in PROGS]
+    return [{"op": o, "prog": p, "P": 1, "gran": "coarse" if tier == "quick" else "fine"} for o in OPS for p in PROGS]
 
 
 _BASE = {}
@@ -108,8 +108,8 @@ _BASE = {}
 def h_timer_thread(a, inst):
     """the source thread and the TimeoutScheduler's gated timer threads on a controlled clock; a preemption towards a sleeping timer
     thread is the move 'time passes' (the timer comes due while the source is inside the operator)"""
-    gate.GRANULARITY = "coarse"
-    key = (inst["op"], inst["prog"])
+    gate.GRANULARITY = inst.get("gran", "coarse")
+    key = (inst["op"], inst["prog"], inst.get("gran"))
     if key not in _BASE:
         with gate.untraced():
             _BASE[key] = run_once(inst, [])
